@@ -18,7 +18,8 @@ Oracle clauses
   C10.context     the expression gives the same (documented) value in WHERE, nested in another rewritten function, in a
                   CTE, in a view body, in INSERT … SELECT and in UPDATE … SET as in the select list
   C10.stmt        statement-level constructs (RANDOM(seed), SAMPLE … SEED, IDENTIFIER(), VALUES columnN, ARRAY_AGG,
-                  alias reuse in JOIN … ON): rows / column names / repeatability as documented
+                  alias reuse in JOIN … ON): rows / column names / repeatability as documented, in SELECT statements and
+                  again inside INSERT … SELECT, CREATE TABLE AS, a view, a top-level UNION ALL and UPDATE … SET = (subquery)
 
 Not demanded (deliberately left open, see the comments at the alphabets): Python ``int`` vs ``Decimal`` for scale 0
 (C01 owns the connector type mapping); description of a NULL result and all of description's names (C06/C02);
@@ -26,7 +27,7 @@ the type code of ARRAY results; FLOAT → NUMBER exactly at binary-exact midpoin
 where POSIX ERE and Python re agree (no empty matches, no prefix alternation, ``^`` only at position 1); AUTO date
 formats other than ISO (rejection accepted); TRIM with an empty or NULL character set; SPLIT of ''; ARRAY_AGG over
 NULL inputs / empty groups; sub-microsecond digits; whether a date-only string literal in DATEADD is a DATE or a
-TIMESTAMP; which rows SAMPLE picks; the values RANDOM returns and whether they repeat when the statement is executed again.  "Rejected" = any exception from execute or fetch.
+TIMESTAMP; which rows SAMPLE picks; the values RANDOM returns and equality of RANDOM(seed) between different statement texts (demanded: the same statement text with the same seed repeats its values when executed again — in a plain SELECT, INSERT … SELECT, CREATE TABLE AS, a top-level set operation and UPDATE … SET = (subquery); through a view only the type).  "Rejected" = any exception from execute or fetch.
 
 Classes name the input shape only (construct, syntactic form, and features computed from the arguments and the
 reference — e.g. "the reference result differs from truncation"), never anything observed.
